@@ -27,13 +27,13 @@ Proof. exact origins_survivors. Qed.
 (* declarations only grow: a replaced raises / has contract lists everything declared before *)
 Theorem C19_declared_exceptions_kept : forall ty f l,
   In (PRemove l) (mutations_excs ty f) ->
-  (exists c, In c (f_contracts f) /\ exc_cat c = true /\ c_line c <= l <= c_line c + (c_last c - c_line c)) /\
+  (exists c, In c (f_contracts f) /\ exc_cat c = true /\ c_inherited c = false /\ c_line c <= l <= c_line c + (c_last c - c_line c)) /\
   In (PInsertC (get_insert_line f) CRaises (declared_excs f ++ f_new_excs f) (f_col f)) (mutations_excs ty f).
 Proof. exact excs_remove_replaced. Qed.
 Theorem C19_declared_markers_kept : forall q ty f acc l,
   In (PRemove l) (collect_markers q ty f acc) -> ~ In (PRemove l) acc ->
-  (exists c, In c (f_contracts f) /\ has_cat c = true /\ c_line c <= l <= c_line c + (c_last c - c_line c)) /\
-  In (PInsertC (get_insert_line f) CHas (map (fun a => (q ++ a ++ q)%string) (declared_markers f ++ f_new_markers f)) (f_col f)) (collect_markers q ty f acc).
+  (exists c, In c (f_contracts f) /\ has_cat c = true /\ c_inherited c = false /\ c_line c <= l <= c_line c + (c_last c - c_line c)) /\
+  In (PInsertC (get_insert_line f) CHas (map (quoted q) (declared_markers f ++ f_new_markers f)) (f_col f)) (collect_markers q ty f acc).
 Proof. exact markers_remove_replaced. Qed.
 Theorem C19_new_exceptions_declared : forall ty f,
   f_new_excs f <> [] -> t_raises ty = true ->
@@ -41,6 +41,13 @@ Theorem C19_new_exceptions_declared : forall ty f,
 Proof. exact excs_grow. Qed.
 Theorem C19_nothing_new_nothing_changed : forall ty f, f_new_excs f = [] -> declared_excs f <> [] -> mutations_excs ty f = [].
 Proof. exact excs_nothing_new. Qed.
+Theorem C19_insert_below_inherit : forall f ds ln,
+  f_decos f = ds ++ [DInherit ln] -> (forall d, In d ds -> f_line f <= deco_line d) -> f_line f <= ln -> get_insert_line f = ln + 1.
+Proof. exact insert_below_inherit. Qed.
+Theorem C19_import_line_stops : forall h pre rest, import_line h (pre ++ SOther :: rest) = import_line h (pre ++ [SOther]).
+Proof. exact import_line_stops. Qed.
+Print Assumptions C19_import_line_stops.
+Print Assumptions C19_insert_below_inherit.
 Print Assumptions C19_bottom_up.
 Print Assumptions C19_only_lines_added_or_removed.
 Print Assumptions C19_survivors.
